@@ -226,7 +226,11 @@ def observe (m : Msg) : String :=
     g "ext" (showComms o.extCommunities),
     g "v6ext" (showComms o.ipv6ExtCommunities),
     g "large" (showComms o.largeCommunities),
-    g "all" (showOO (fun (l : List Bytes) => String.intercalate ";" (l.map hexOrDash)) o.allCommunities)]
+    g "all" (showOO (fun (l : List Bytes) => String.intercalate ";" (l.map hexOrDash)) o.allCommunities),
+    -- the harness' iterator-protocol verdict (harness/src/common.rs iter_protocol): the model's iterators
+    -- are `next` sequences, every default consumption of which observes the same list
+    -- (Rc/Lemmas/IterProto.lean), so the model's answer is the constant
+    g "proto" "ok"]
 
 def upd (c hx : String) : String :=
     match parseCfg c, bytesOfHex hx with
